@@ -879,9 +879,15 @@ def set_method(I, st, ref, o: SetObj, name, args, kwargs, node):
 
 def str_method(I, st, recv, name, args, kwargs, node):
     recv = norm_str(recv)
-    if isinstance(recv, str) and all(isinstance(norm_str(a), (str, int)) for a in args) and name in (
+    def _conc(a):
+        a = norm_str(a)
+        if isinstance(a, tuple):                      # startswith / endswith accept a tuple of prefixes
+            a = tuple(norm_str(x) for x in a)
+            return a if all(isinstance(x, str) for x in a) else None
+        return a if isinstance(a, (str, int)) else None
+    if isinstance(recv, str) and all(_conc(a) is not None for a in args) and name in (
             "lower", "upper", "strip", "startswith", "endswith", "capitalize", "split", "replace", "lstrip", "rstrip", "format"):
-        r = getattr(recv, name)(*[norm_str(a) for a in args])
+        r = getattr(recv, name)(*[_conc(a) for a in args])
         return mk_list(st, r) if isinstance(r, list) else r
     if name == "join":
         seq = iter_values(I, st, args[0], node)
